@@ -30,20 +30,20 @@ TECHNIQUE = ("Coq proofs over an executable model of ascii_table/markdown/__str_
              "width accounting of trunc_printable by induction over the text) + model/implementation correspondence evaluated in Coq")
 LEVEL_TEXT = ("Machine-checked Coq theorems over an executable Gallina model of orso/display.py: for every frame, limit >= 1, both modes, "
               "eager and lazy, the rows shown are the first and last `limit` (all when n <= 2*limit) with exactly one ellipsis line otherwise and every "
-              "label is the row's true 1-based position; for every modelled cell kind the formatter returns Ok (bytes of any content included); for "
+              "label is the row's true 1-based position; for every enumerated cell kind the formatter, the table and str() return Ok (no Raise reachable; bytes of any content, timedelta64 of any unit and NaT included); for "
               "printable-ASCII names and cells every box line handed to colorizer has the same printed width min(table width, display width). The model "
               "is tied to the code by rendering real DataFrames (display / ascii_table head-only / markdown / str, eager and generator-backed, every "
               "listed cell kind) and evaluating the model on the same frames inside Coq: full output compared by length + 61-bit digest, labels, "
               "ellipsis position and per-line printed widths compared structurally; a literal property oracle on the real output supplies replayable "
               "failing inputs.")
-LEVEL_NOTE = ("Partial: 'never fails' is proved for the enumerated cell kinds only (arbitrary Python objects are outside any model; differential run only). "
-              "Trusted / modelled, not verified: str() of cell values, strftime, ndarray.tolist(), unicodedata.east_asian_width (regenerated into "
-              "Gen/C18_Tables.v), terminal width; sub-second interval text is exact rational rounding (generators avoid exact .xx5 ties, where binary64 "
-              "decides); ints beyond CPython's int->str digit limit are outside (str() itself raises). The equal-width theorem is about the lines "
+LEVEL_NOTE = ("Totality is over the enumerated cell kinds; a value whose own str() raises (an int beyond CPython's int->str digit limit, a user object) "
+              "cannot be described as a case and is covered by nothing. Trusted / modelled, not verified: str() of cell values, strftime, "
+              "ndarray.tolist(), unicodedata.east_asian_width (regenerated into Gen/C18_Tables.v), terminal width; sub-second interval text is exact "
+              "rational rounding (generators avoid exact .xx5 ties, where binary64 decides). Partial: the equal-width theorem is about the lines "
               "before colour-token substitution with tokens counted as zero width; that colorizer replaces exactly the tokens is checked by the "
-              "correspondence and the oracle, not proved. The real output is compared by length and a 61-bit polynomial digest, not character by "
-              "character. Known-finding guards: timedelta64 NaT / month-year units (F-C18-3), literal backslash-u0001 in content (F-C18-4), lazy "
-              "head-only limit >= 100 (F-C18-5).")
+              "correspondence and the oracle, not proved, and is false for content holding the six characters backslash-u0001 (known finding "
+              "F-C18-4, guarded exactly: printable-ASCII case with that text in a column name or a rendered cell). The real output is compared by "
+              "length and a 61-bit polynomial digest, not character by character.")
 DESIGN_REF = "DESIGN.md section 8, C18"
 COQ_IMPORTS = "From Coq Require Import String.\nFrom Orso Require Import Model.C18."
 COQ_CHECKS = {"render": "c18_check"}
@@ -63,8 +63,8 @@ TRUSTED = [
 ]
 ASSUMPTIONS = [
     "limit >= 1, max_column_width >= 1, display width >= 1, rows rectangular (ragged rows: see C10)",
-    "equal-width theorem: names, type names and all cell texts printable ASCII (32..126); labels fit the index column (proved for eager frames and "
-    "lazy top-and-tail; refuted for lazy head-only with limit >= 100, F-C18-5)",
+    "equal-width theorem: names, type names and all cell texts printable ASCII (32..126)",
+    "every cell value has a str() (supplied with the case)",
 ]
 
 ANSI = re.compile(r"\x1b\[[0-9;]*m")
@@ -318,8 +318,13 @@ def describe(spec, v):
     if k == "nptd":
         is_nat = spec[1] is None
         linear = spec[2] in LINEAR_UNITS
-        ns = 0 if (is_nat or not linear) else int(spec[1]) * UNIT_NS[spec[2]]
-        return Desc("(VNpTimedelta %s %s %s)" % (L.boolean(is_nat), L.boolean(linear), L.Z(ns)), None, [])
+        if is_nat:
+            cnt = 0
+        elif linear:
+            cnt = int(spec[1]) * UNIT_NS[spec[2]]          # nanoseconds
+        else:
+            cnt = int(spec[1]) * (12 if spec[2] == "Y" else 1)   # months
+        return Desc("(VNpTimedelta %s %s %s)" % (L.boolean(is_nat), L.boolean(linear), L.Z(cnt)), None, [])
     return describe_py(v)
 
 
@@ -481,29 +486,18 @@ def _str_limit():
     return _STR_LIMIT
 
 
-def _bad_td(spec):
-    if spec[0] == "nptd":
-        return spec[1] is None or spec[2] in NONLINEAR_UNITS
-    return False
-
-
 def known(case, obs):
-    cfg = case["cfg"]
-    n = len(case["rows"])
-    shown = _rendered_rows(case)
-    if any(_bad_td(c) for i in shown for c in case["rows"][i]):
-        return "F-C18-3"
-    # F-C18-4 breaks the equal-width clause, which speaks about printable-ASCII content only
-    if ascii_only(case):
-        if any(U0001 in nm for nm in case["names"]):
-            return "F-C18-4"
-        for i in shown:
-            for c in case["rows"][i]:
-                d = cell_term(c)[1]
-                if any(U0001 in t for t in d.texts) or U0001.encode() in d.raw:
-                    return "F-C18-4"
-    if case["lazy"] and not cfg["tt"] and min(n, cfg["limit"]) >= 100:
-        return "F-C18-5"
+    """F-C18-4 (known): printable-ASCII content holding the six characters backslash-u0001 in a column name or in a
+    cell that display() or str() renders.  Nothing else is guarded."""
+    if not ascii_only(case):
+        return None     # the finding breaks the equal-width clause, which speaks about printable-ASCII content only
+    if any(U0001 in nm for nm in case["names"]):
+        return "F-C18-4"
+    for i in _rendered_rows(case):
+        for c in case["rows"][i]:
+            d = cell_term(c)[1]
+            if any(U0001 in t for t in d.texts) or U0001.encode() in d.raw:
+                return "F-C18-4"
     return None
 
 
@@ -806,8 +800,9 @@ def _rand_cell(rng, mode, kind=None):
             return ["nparr", "bool", [True, False]]
         return ["nparr", "object", [_rand_simple(rng, mode) for _ in range(rng.choice([1, 2, 3]))]]
     if kind == "nptd":
-        if rng.random() < 0.04:  # the F-C18-3 class does occur (such cases run under its guard when the cell is rendered)
-            return rng.choice([["nptd", None, "ns"], ["nptd", None, "D"], ["nptd", 3, "M"], ["nptd", 2, "Y"], ["nptd", None, "M"]])
+        if rng.random() < 0.3:  # NaT and month / year units (F-C18-3, fixed)
+            return rng.choice([["nptd", None, "ns"], ["nptd", None, "D"], ["nptd", None, "M"], ["nptd", 3, "M"], ["nptd", 2, "Y"], ["nptd", 0, "M"],
+                               ["nptd", -14, "M"], ["nptd", rng.randint(-500, 500), "M"], ["nptd", rng.randint(-50, 50), "Y"]])
         unit = rng.choice(LINEAR_UNITS)
         bound = min(10**6, (2**52) // UNIT_NS[unit])
         count = rng.choice([0, 1, -1, 59, 61, 3600, 86400, 90061, rng.randint(-bound, bound)])
@@ -887,14 +882,18 @@ W_F1 = _ints_case(7, 2, False, True)                       # F-C18-1 (fixed): ea
 W_F2 = {"names": ["b"], "schema": None, "rows": [[["bytes", "fffe"]], [["bytearray", "6162c3"]]], "lazy": False, "idcol": False,
         "cfg": {"limit": 5, "dw": 80, "mcw": 32, "colorize": True, "tt": True, "show_types": True},
         "md": {"limit": 5, "mcw": 30}, "cols": 80}         # F-C18-2 (fixed): bytes that are not UTF-8
+def _one_cell(spec, **kw):
+    cfg = {"limit": 5, "dw": 80, "mcw": 32, "colorize": False, "tt": True, "show_types": False}
+    cfg.update(kw)
+    return {"names": ["t"], "schema": None, "rows": [[spec]], "lazy": False, "idcol": False, "cfg": cfg, "md": {"limit": 5, "mcw": 30}, "cols": 80}
+
+
+W_F3 = [_one_cell(["nptd", None, "ns"]), _one_cell(["nptd", 3, "M"]), _one_cell(["nptd", None, "M"]), _one_cell(["nptd", -2, "Y"], colorize=True)]
+W_F5 = _ints_case(100, 100, True, False)                   # F-C18-5 (fixed): lazy, head-only, label 100
 KNOWN_WITNESSES = {
-    "F-C18-3": {"names": ["t"], "schema": None, "rows": [[["nptd", None, "ns"]]], "lazy": False, "idcol": False,
-                "cfg": {"limit": 5, "dw": 80, "mcw": 32, "colorize": False, "tt": True, "show_types": False},
-                "md": {"limit": 5, "mcw": 30}, "cols": 80},
     "F-C18-4": {"names": ["t"], "schema": None, "rows": [[["str", "plain text"]], [["str", "\\u0001OFFm"]]], "lazy": False, "idcol": False,
                 "cfg": {"limit": 5, "dw": 80, "mcw": 32, "colorize": False, "tt": True, "show_types": False},
                 "md": {"limit": 5, "mcw": 30}, "cols": 80},
-    "F-C18-5": _ints_case(100, 100, True, False),
 }
 
 
@@ -918,6 +917,13 @@ def corpus():
     # a lazy head-only frame whose labels just fit (99 rows shown)
     yield _ints_case(99, 99, True, False)
     yield _ints_case(120, 100, False, False)
+    for w in W_F3:
+        yield w
+        yield dict(w, lazy=True)
+    yield W_F5
+    yield _ints_case(130, 120, True, False, colorize=True)
+    yield _ints_case(1, 3, True, False)
+    yield _ints_case(0, 3, True, False)
     # three-digit labels next to few shown rows
     yield _ints_case(105, 2, False, True)
     yield _ints_case(105, 2, True, True)
@@ -952,6 +958,8 @@ def search(rng):
         r = rng.random()
         if r < 0.1:
             yield _ints_case(rng.randint(95, 130), rng.randint(1, 8), rng.random() < 0.5, True)
+        elif r < 0.15:
+            yield _ints_case(rng.randint(95, 130), rng.randint(95, 130), True, False)
         elif r < 0.4:
             yield _ints_case(rng.randint(0, 30), rng.randint(1, 8), rng.random() < 0.5, rng.random() < 0.8,
                              colorize=rng.random() < 0.5, show_types=rng.random() < 0.5)
